@@ -5,7 +5,7 @@ For every <root>/<ID>/out/<k>/patch.diff: export /repo HEAD, apply, run the snap
 MISSED / undecided / patch-failed.  Existing entries of the json are kept ( a seed is first-evaluated once )."""
 import json, os, re, shutil, subprocess, sys, tempfile
 snap, root, outp = sys.argv[1:4]
-ids = sys.argv[4:] or sorted( d for d in os.listdir( root ) if re.match( r'C\d\d$', d ))
+ids = sys.argv[4:] or sorted( d for d in os.listdir( root ) if re.match( r'C\d\d[a-z]?$', d ))
 res = json.load( open( outp )) if os.path.exists( outp ) else {}
 for pid in ids:
     od = os.path.join( root, pid, 'out' )
@@ -20,7 +20,7 @@ for pid in ids:
             p = subprocess.run( 'patch -p1 -s --no-backup-if-mismatch < %s' % pf, shell=True, cwd=tmp, stdout=subprocess.PIPE, stderr=subprocess.STDOUT )
             if p.returncode:
                 res[key] = dict( status='patch-failed' ); continue
-            p = subprocess.run( [ 'python3-vt', '-B', '-m', 'sa', 'check', pid, '--root', tmp, '--no-write' ], cwd=snap, stdout=subprocess.PIPE, stderr=subprocess.STDOUT )
+            p = subprocess.run( [ 'python3-vt', '-B', '-m', 'sa', 'check', pid[:3], '--root', tmp, '--no-write' ], cwd=snap, stdout=subprocess.PIPE, stderr=subprocess.STDOUT )
             out = p.stdout.decode( 'utf-8', 'replace' )
             rules = sorted( set( re.findall( r'^  \S+:\d+ [^:]+: ([A-Z]-?[A-Z0-9-]+): ', out, re.M )))
             res[key] = dict( status={ 0: 'MISSED', 1: 'caught', 2: 'undecided' }.get( p.returncode, 'rc%d' % p.returncode ), rules=rules,
